@@ -164,6 +164,15 @@ class CFGBuilder(AstVisitor[BB | None]):
             and node.value is not None
         ):
             node.value, bb = ExprBuilder.build(node.value, self.cfg, bb)
+        # Subscripts in assignment targets may contain conditional or short-circuit
+        # expressions that need to be built as well
+        if isinstance(node, ast.Assign | ast.AugAssign | ast.AnnAssign):
+            targets = node.targets if isinstance(node, ast.Assign) else [node.target]
+            for target in targets:
+                for sub in find_nodes(lambda n: isinstance(n, ast.Subscript), target):
+                    assert isinstance(sub, ast.Subscript)
+                    if is_built_early(sub.slice):
+                        sub.slice, bb = ExprBuilder.build(sub.slice, self.cfg, bb)
         bb.statements.append(node)
         return bb
 
